@@ -94,6 +94,10 @@ def symbolic_trace(rng, ncalls=10, via="liesel"):
         cand = [i + 1 for i, p in enumerate(plan) if p["kind"] in ("c", "t") and not p.get("wrapped")]
         if cand:
             unodes[rng.choice(["lp", "lp", "ll", "lpr"])] = rng.choice(cand)
+    # now and then a plain value node is of a user-defined class whose state carries extra information
+    plain = [i + 1 for i, p in enumerate(plan) if p["kind"] == "v" and not p.get("wrapped")]
+    if plain and rng.random() < 0.3:
+        plan[rng.choice(plain) - 1]["tagged"] = True
     run = ProgramRun(plan, unodes)
     user = run.model
     hdr = run.header()
@@ -162,7 +166,10 @@ def symbolic_trace(rng, ncalls=10, via="liesel"):
             fresh_val, _ = _eff(run, scratch, fresh)
             direct_val = [str(direct_model.nodes[f"n{i}"].value) for i in range(1, run.n + 1)]
             extracted = iface.extract_position(list(pos), ret)
+            extras_kept = all(getattr(ret[f"n{i}"], "extra", None) == getattr(st[f"n{i}"], "extra", None)
+                              for i in range(1, run.n + 1))
             ev.append({"ev": "update_state", "st": si + 1, "pos": pos_log, "same_object_as_last": si == last_pair,
+                       "extras_kept": bool(extras_kept),
                        "ret_val": eff_val, "ret_outd": eff_outd, "raw_val": rv, "raw_outd": ro,
                        "fresh_val": fresh_val, "direct_val": direct_val,
                        "extracted": [str(extracted[n]) for n in pos],
@@ -279,6 +286,58 @@ class DState:
 
     def __post_init__(self):
         self.cache = 100.0
+
+
+from dataclasses import InitVar  # noqa: E402
+
+from liesel.goose.pytree import register_dataclass_as_pytree  # noqa: E402
+
+
+@register_dataclass_as_pytree
+@dataclass
+class PState:
+    """A dataclass model state registered as a pytree, with a sufficient statistic that is no declared field (computed
+    once in __post_init__ from an init-only argument)."""
+    x: object
+    loc: object
+    data: InitVar[object] = None
+
+    def __post_init__(self, data):
+        self.ybar = jnp.mean(jnp.asarray(data)) if data is not None else jnp.asarray(0.0)
+
+
+def dataclass_jit_trace(rng):
+    """DataclassInterface under jit and vmap: the state that comes back holds what the eager call returns, including
+    attributes that are not declared fields; log_prob of it can be evaluated."""
+    def lp(s):
+        return -0.5 * jnp.sum((s.x - s.loc) ** 2) - 0.5 * (s.ybar - s.loc) ** 2
+
+    iface = gs.DataclassInterface(lp)
+    ev = []
+    for _ in range(3):
+        st = PState(jnp.asarray([rng.uniform(-1, 1), rng.uniform(-1, 1)], jnp.float32), jnp.float32(rng.uniform(-1, 1)),
+                    data=[rng.uniform(0, 2) for _ in range(4)])
+        pos = {"loc": jnp.float32(rng.uniform(-2, 2))}
+        e = {"ev": "dataclass_jit", "crash": ""}
+
+        def desc(s):
+            return {"x": [fstr(np.float32(v)) for v in np.ravel(np.asarray(s.x))], "loc": fstr(np.float32(s.loc)),
+                    "ybar": fstr(np.float32(s.ybar)) if hasattr(s, "ybar") else "missing"}
+        try:
+            eager = iface.update_state(pos, st)
+            e["eager"] = desc(eager)
+            e["eager_lp"] = fstr(np.float32(iface.log_prob(eager)))
+            jitted = jax.jit(iface.update_state)(pos, st)
+            e["jit"] = desc(jitted)
+            e["jit_lp"] = fstr(np.float32(jax.jit(lambda p, s: iface.log_prob(iface.update_state(p, s)))(pos, st)))
+            batch = {"loc": jnp.stack([pos["loc"], pos["loc"] + 1.0])}
+            vm = jax.vmap(iface.update_state, in_axes=(0, None))(batch, st)
+            first = jax.tree_util.tree_map(lambda a: a[0], vm)
+            e["vmap_first"] = desc(first)
+        except Exception as ex:  # noqa: BLE001
+            e["crash"] = f"{type(ex).__name__}: {ex}"[:200]
+        ev.append(e)
+    return {"hdr": {"n": 1, "kind": ["v"], "inp": [[]], "init": ["-"], "family": "dataclass_jit"}, "ev": ev}
 
 
 class NState(NamedTuple):
